@@ -1,4 +1,4 @@
-from lib import p2p_twopass, scan_panics
+from lib import p2p_twopass, scan_panics, translate_fsm
 
 p2p_twopass.enable("p2p_events", "p2p_resp")
 
@@ -7,8 +7,8 @@ SPEC = {
     "level": "proof",
     "lean_modules": ["PallasVerif.Props.C29"],
     "required_theorems": ["initiator_no_panic_partial", "responder_no_panic_partial", "initiator_panic_only_overflow",
-                          "full_statement_fails", "all_sites_discharged"],
-    "translators": [scan_panics.scan_p2p],
+                          "full_statement_fails", "all_sites_discharged", "protocol_machines_match_source"],
+    "translators": [scan_panics.scan_p2p, translate_fsm.translate_n2],
     "streams": [{"name": "p2p_events", "quick": 500, "thorough": 15000},
                 {"name": "p2p_resp", "quick": 500, "thorough": 15000}],
     "rule": "event sequences (5..300 events, 2..12 peers) for InitiatorBehavior (stream p2p_events) and ResponderBehavior "
@@ -17,6 +17,8 @@ SPEC = {
             "distinct = sha1 of op text; non-trivial = at least one peer completed a handshake and at least one peer was "
             "flagged with a protocol violation in the same case",
     "trusted_base": [
+        "lib/translate_fsm.py (Tie A, shared with C24): Gen/FsmN2.lean is regenerated from pallas-network2/src/protocol/* on every "
+        "run; Proofs/P2PProtoTie.lean proves the eight `apply` machines of Model/P2PProto.lean equal to it (acceptance + successor class)",
         "Model/P2PInitiator.lean, Model/P2PResponder.lean, Model/P2PProto.lean: hand transcriptions of pallas-network2 "
         "behavior/{initiator,responder}/* and protocol/*::State::apply; tie = streams p2p_events / p2p_resp (outputs and full "
         "per-peer state compared after every event; a panic of the implementation is caught per event)",
